@@ -157,6 +157,25 @@ def check_b(ck, repo):
     for cname in ("PiecewiseRegressor", "PiecewiseClassifier"):
         cc = repo.cls(MOD, cname)
         for mname, m in cc.methods.items():
+            if mname in table:
+                nd = [c for c in own_nodes_incl_lambda(m.node) if isinstance(c, ast.Call) and src_of(c.func) == "self._apply_predict_method"]
+                if not nd:
+                    ck.violated("C08.b", m, f"{cname}.{mname}", f"{cname}.{mname} does not dispatch '{mname}' to the bucket models through _apply_predict_method: the output for a row is no longer its bucket's model's {mname}")
+                    continue
+                # the returned value must come from that call
+                rets = [r for r in own_nodes(m.node) if isinstance(r, ast.Return)]
+                okr = True
+                for r in rets:
+                    v = r.value
+                    if isinstance(v, ast.Call) and (v is nd[0] or (isinstance(v.func, ast.Attribute) and v.func.attr == "astype" and isinstance(v.func.value, ast.Name))):
+                        if v is nd[0]:
+                            continue
+                        nm = v.func.value.id
+                        defs = [x for x in own_nodes(m.node) if isinstance(x, ast.Assign) and src_of(x.targets[0]) == nm]
+                        if len(defs) == 1 and defs[0].value is nd[0]:
+                            continue
+                    okr = False
+                ck.verdict(okr, "C08.b", m, f"{cname}.{mname}: return value", "the value returned is the dispatch result (at most re-typed)", f"{cname}.{mname} does not return the result of the per-bucket dispatch")
             for c in own_nodes_incl_lambda(m.node):
                 if isinstance(c, ast.Call) and src_of(c.func) == "self._apply_predict_method":
                     a = c.args
@@ -215,6 +234,12 @@ def check_d(ck, repo):
                 for p, e in binding.items():
                     n += 1
                     shared = not (names_in(e) & loopvars)
+                    if not shared and isinstance(e, ast.Subscript) and isinstance(e.value, ast.Name):
+                        # seeds[i] where every element of `seeds` is one and the same object
+                        se = _shared_element(fi, e.value.id)
+                        if se is not None:
+                            shared = True
+                            e = se
                     w = s.writes.get(p) if s else None
                     label = f"{callee.name}({p}={src_of(e)[:30]})"
                     if not shared:
@@ -224,6 +249,27 @@ def check_d(ck, repo):
                     else:
                         ck.holds("C08.d", fi, label, "shared argument is only read by the task")
     return n
+
+
+def _shared_element(fi: FunctionInfo, name: str):
+    """if some definition of list `name` puts the SAME non-constant object in
+    every position ([obj for _ in ...] or [obj] * n), return that element
+    expression."""
+    for s in own_nodes(fi.node):
+        if isinstance(s, ast.Assign) and any(isinstance(t, ast.Name) and t.id == name for t in s.targets):
+            v = s.value
+            if isinstance(v, ast.ListComp):
+                cv = set()
+                for g in v.generators:
+                    cv |= names_in(g.target)
+                if not (names_in(v.elt) & cv) and not isinstance(v.elt, ast.Constant) and not isinstance(v.elt, ast.Call):
+                    return v.elt
+            if isinstance(v, ast.BinOp) and isinstance(v.op, ast.Mult) and isinstance(v.left, ast.List) and len(v.left.elts) == 1 and not isinstance(v.left.elts[0], (ast.Constant, ast.Call)):
+                return v.left.elts[0]
+    return None
+
+
+LOSSY_REDUCERS = {"argmax", "argmin", "max", "min", "sum", "mean", "any", "all", "count_nonzero", "first", "nonzero"}
 
 
 def check_e(ck, repo):
@@ -268,6 +314,13 @@ def check_e(ck, repo):
                 return [src_of(s.value) for s in ast.walk(ast.Module(body=b.body, type_ignores=[])) if isinstance(s, ast.Assign) and src_of(s.targets[0]) == "d"]
             k1, k2 = keys(b1), keys(b2)
             ck.verdict(len(k1) >= 1 and len(k2) >= 1 and set(k1) == set(k2) and len(set(k1)) == 1, "C08.e", tb, f"d = {sorted(set(k2))}", "bucket keys of the transformer binner are built by one expression everywhere", f"fit builds keys with {sorted(set(k1))}, predict with {sorted(set(k2))}: no row finds its bucket")
+            # the key must encode the whole transformed row (injective): no reducer keeps one position only
+            for b in (b1, b2):
+                for s_ in ast.walk(ast.Module(body=b.body, type_ignores=[])):
+                    if isinstance(s_, ast.Assign) and src_of(s_.targets[0]) == "d":
+                        red = [c for c in ast.walk(s_.value) if isinstance(c, ast.Call) and src_of(c.func).split(".")[-1] in LOSSY_REDUCERS]
+                        sub1 = [x for x in ast.walk(s_.value) if isinstance(x, ast.Subscript) and isinstance(x.slice, ast.Constant)]
+                        ck.verdict(not red and not sub1, "C08.e", mt if b is b1 else tb, s_, "bucket key keeps every entry of the binner's output row", f"the bucket key {src_of(s_.value)[:60]!r} reduces the binner's output row to one number: distinct discretizer cells share a bucket, so rows are not routed to exactly their own cell's model")
             g1 = [src_of(s) for s in ast.walk(ast.Module(body=b1.body, type_ignores=[])) if isinstance(s, ast.Assign) and "mapping.get(" in src_of(s)]
             g2 = [src_of(s) for s in ast.walk(ast.Module(body=b2.body, type_ignores=[])) if isinstance(s, ast.Assign) and "mapping_.get(" in src_of(s)]
             ck.verdict(g1 == ["association[i] = mapping.get(d, -1)"] and g2 == ["association[i] = self.mapping_.get(d, -1)"], "C08.e", tb, f"{g2}", "row i gets the bucket of its own key, unknown -> -1, on both sides", f"key lookup differs or does not default to -1: {g1} / {g2}")
@@ -319,6 +372,9 @@ WITNESSES = [
     {"name": "predict-unknown-zero", "file": _F, "rule": "C08.e", "old": "association[ind] = self.mapping_.get(j, -1)", "new": "association[ind] = self.mapping_.get(j, 0)"},
     {"name": "predict-init-zero", "file": _F, "rule": "C08.e", "old": "            association = numpy.zeros((X.shape[0],))\n            association[:] = -1\n            tr = binner.transform(X)\n", "new": "            association = numpy.zeros((X.shape[0],))\n            tr = binner.transform(X)\n"},
     {"name": "predict-mask-ge", "file": _F, "rule": "C08.e", "old": "            for j in self.leaves_:\n                ind = dec_path[:, j] == 1\n", "new": "            for j in self.leaves_:\n                ind = dec_path[:, j] >= 0\n"},
+    {"name": "shared-generator-in-list", "file": _F, "rule": "C08.d", "old": "            seeds = rnd.randint(numpy.iinfo(numpy.int32).max, size=len(estimators))\n", "new": "            seeds = [rnd for _ in estimators]\n"},
+    {"name": "classifier-predict-argmax", "file": _F, "rule": "C08.b", "old": "        pred = self._apply_predict_method(X, \"predict\", _predict_piecewise_estimator, 1)\n        return pred.astype(numpy.int32)\n", "new": "        proba = self.predict_proba(X)\n        return numpy.argmax(proba, axis=1).astype(numpy.int32)\n"},
+    {"name": "key-argmax", "file": _F, "rule": "C08.e", "old": "d = tuple(numpy.asarray(x.todense()).ravel().astype(numpy.int32))", "new": "d = (int(x.argmax()),)", "count": 3},
     {"name": "scatter-wrong", "file": _F, "rule": "C08.c", "old": "    return ind, est.predict_proba(X[ind, :])\n", "new": "    return association != i, est.predict_proba(X[ind, :])\n"},
 ]
 TWINS = [
